@@ -109,6 +109,10 @@ func (r *Run) Note(format string, a ...any) {
 // A key listed in KNOWN_FINDINGS.txt prints KNOWN-FINDING instead.
 func (r *Run) Violation(key string, replay any, msg string) {
 	key = strings.Join(strings.Fields(key), "_")
+	if len(key) > 160 { // keys name a class of violation; a runaway token (a 2 kB field value) is cut, with a digest
+		d := sha256.Sum256([]byte(key))
+		key = key[:140] + "~" + hex.EncodeToString(d[:4])
+	}
 	r.mu.Lock()
 	defer r.mu.Unlock()
 	if desc, ok := r.known[key]; ok {
